@@ -903,7 +903,7 @@ def r18e(ctx, cfgs):
     for sym_t in (None, (), ("A",), ("A", cfg["fock"], cfg["eri"])):
         for anti in (None, (), ("B",), ("B", "C")):
             for real in (False, True):
-                for tgt in (None, "ij"):
+                for tgt in (None, "ij", "ji"):
                     del log[:]
                     me = []
 
@@ -937,9 +937,34 @@ def r18e(ctx, cfgs):
                               f"{what}: make_real is called {len(mr)} time(s)", key=f"init real {key}")
                     tg = [x for x in log if x[0] == "target"]
                     okt = (not tg) if tgt is None else (len(tg) == 1 and (tg[0][2] + list(tg[0][3].values())) == [tgt])
+                    if not okt and not tg:
+                        # the constructor may also store the target indices itself: then the stored value has to be the
+                        # one Expr.set_target_idx(target_idx) stores (both evaluated from the source, by value)
+                        okt = "_target_idx" in me[0].attrs and \
+                            _same_value(me[0].attrs["_target_idx"], _stored_target(ctx, cfg, cfgs["default"], tgt))
                     ctx.check(rule, fn, okt, f"{what}: target indices forwarded", f"{what}: set_target_idx calls {[(x[2], x[3]) for x in tg]}",
                               key=f"init target {key}")
     ctx.floor(rule, "evaluations of Expr.__init__", n, 64)
+
+
+def _same_value(a, b):
+    return a is b or a == b or repr(a) == repr(b)
+
+
+def _stored_target(ctx, cfg, default_cfg, tgt):
+    """what Expr.set_target_idx(tgt) stores in _target_idx of a fresh container (evaluated from the source)"""
+    fn = ctx.model.fn("expr_container:Expr.set_target_idx")
+    sx = make_sx(ctx, "Expr.set_target_idx", cfg, default_cfg)
+    sx.isinstance_hook = lambda s, obj, cname: False
+    box = []
+
+    def args():
+        box[:] = [Obj("expr_container:Expr", "self", _target_idx=sym("UNSET"))]
+        return dict(self=box[0], target_idx=tgt)
+    outs = sx.run(fn, args)
+    if len(outs) != 1 or outs[0].kind != "return":
+        raise AnalysisError(f"Expr.set_target_idx({tgt!r}) does not return on one path: {outs}")
+    return box[0].attrs.get("_target_idx")
 
 
 # ------------------------------------------------------------------ R18f: who may create an Index
